@@ -649,7 +649,8 @@ PROPS["C05"] = dict(
                "Proved as well: the data clause for coordinates through the 2-sew and the 2-unsew (regenerated from "
                "dim3/sews/two.rs) in their three shapes -- C05_two_sew_vertex_data_{left,right,both}, "
                "C05_two_unsew_vertex_data_{left,right,both} (Map3/SewData3.v: orbit-minimum identifiers, lawful merge / split, "
-               "former identifiers emptied, other slots untouched, on every in-range store). "
+               "former identifiers emptied, other slots untouched, on every in-range store), and for every other registered attribute "
+               "kind, edge- and vertex-bound (C05_two_sew_attr_data_{none,left,right,both}, C05_two_unsew_attr_data_*). "
                "Other data clauses per observation: the 3D sews/unsews are transcribed in Gallina (Map3/Ops3.v) and compared "
                "with the implementation; the property is the executable Coq specification Sew3Oracle.oracle_sew3 (topology = the "
                "link's; per cell kind, merged cells carry the merge under the new id, untouched cells keep their value, no value "
